@@ -452,6 +452,8 @@ def run(rep):
     accessor_rule(rep, f)
     cdend_rule(rep)
     name_surrogate_rule(rep)
+    from . import C15
+    C15.slot_once_rule(rep, "C02.d")
     cls_of, items = severity_rule(rep, f)
     messages_rule(rep, f, cls_of, items)
     diag.run(rep, f, "C02")
